@@ -116,9 +116,9 @@ prop("C19",
      "promotion switch (or is the ** branch / an error exit), decided on the CFG of the rewriter closure; (X2) the C++, Python and MATLAB expression "
      "emitters handle every Expression kind, every BinaryOperator and the same built-in functions; (X3) in each emitter the parenthesisation test in "
      "front of an operand inspects that operand, the right operand is parenthesised at equal precedence (left associativity) and the left operand of "
-     "** keeps its parentheses; (X4) the operator token of every (back end, operator, integer/other result type) equals refs/operators.json.",
-     "Numeric results and overflow behaviour; Python `//` floors where C++ `/` truncates for negative integers and MATLAB `./` rounds integers "
-     "(cross-language differences in the meaning of the reference tokens themselves: recorded in DESIGN.md, not decidable or repairable here).",
+     "** keeps its parentheses; (X4) the operator token of every (back end, operator, integer/other result type) equals refs/operators.json; (X6) the "
+     "rounding of the tokens emitted for an integer-typed division agrees across the three targets (language-definition table in refs/operators.json).",
+     "Numeric results and overflow behaviour; the meaning of ** for integer operands and of mixed-type arithmetic in each target language.",
      COMMON_ASSUME + ["refs/operators.json names, per target language, the operator with the mathematical meaning for in-range operands"])
 
 prop("C03",
